@@ -1424,6 +1424,8 @@ var annotationModes = []metaMode{
 	{"empty", `{}`},
 	{"set", `{"a":"b"}`},
 	{"clash", `{"a":"b","canary-weight":"user","empty":""}`},
+	// what every object created with `kubectl apply` carries (a long, JSON-valued annotation under a well-known key)
+	{"kubectl", `{"a":"b","kubectl.kubernetes.io/last-applied-configuration":"{\"apiVersion\":\"v1\",\"spec\":{\"x\":1}}"}`},
 }
 
 type specShape struct {
